@@ -1,4 +1,49 @@
-(* placeholder until Batch/Proofs*.v land: nothing is claimed proved yet *)
-From V Require Import C02.Glue.
-Theorem c02_placeholder : True. Proof. exact I. Qed.
-Print Assumptions c02_placeholder.
+(* C02 - ForceFlush and Shutdown are complete, final (and always return: evidenced by the scheduled runs, not a theorem).
+   Property theorems only; proofs are in Batch/Proofs*.v and Batch/Theorems.v. *)
+From V Require Import Batch.Model Batch.ProofsA Batch.ProofsB Batch.Theorems.
+From Coq Require Import List Arith.
+Import ListNotations.
+
+Theorem c02_ticket_mark : forall s t old s', t <> 0 -> accept s (t, EFaddPending old) = Some s' -> length (marks s) = pending s ->
+  ap s' t = AFlushWait (S old) None /\ mark s' (S old) = length (enq s) /\ pending s' = S old.
+Proof. exact ticket_mark. Qed.
+Print Assumptions c02_ticket_mark.
+
+Theorem c02_flush_true_complete : forall q b s t k, reachable q b s -> In (t, k, true) (fl_done s) ->
+  mark s k <= flushed s /\ flushed s <= nexported s /\
+  firstn (mark s k) (enq s) = firstn (mark s k) (concat (exported s)).
+Proof. exact flush_true_complete. Qed.
+Print Assumptions c02_flush_true_complete.
+
+Theorem c02_shutdown_complete : forall q b s, reachable q b s -> sh_done s <> [] ->
+  wp s = WDone /\ expshut s = 1 /\ is_shut s = true /\
+  exists l, latch s = Some l /\ l <= nexported s /\ firstn l (enq s) = firstn l (concat (exported s)).
+Proof. exact shutdown_complete. Qed.
+Print Assumptions c02_shutdown_complete.
+
+Theorem c02_exporter_shutdown_at_most_once : forall q b s, reachable q b s -> expshut s <= 1.
+Proof. exact exporter_shutdown_at_most_once. Qed.
+Print Assumptions c02_exporter_shutdown_at_most_once.
+
+Theorem c02_no_exporter_call_after_shutdown : forall q b s t e, reachable q b s -> expshut s = 1 ->
+  exporter_call e = true -> accept s (t, e) = None.
+Proof. exact no_exporter_call_after_shutdown. Qed.
+Print Assumptions c02_no_exporter_call_after_shutdown.
+
+Theorem c02_after_shutdown_calls_inert : forall s t v s', t <> 0 -> is_shut s = true -> accept s (t, ELdShut v) = Some s' ->
+  match ap s t with
+  | AOnEnd id => enq s' = enq s /\ ap s' t = AOnEndOut id /\ discarded s' = discarded s ++ [id]
+  | AFlush0 => ap s' t = AFlushFail /\ pending s' = pending s
+  | _ => True
+  end.
+Proof. exact after_shutdown_calls_inert. Qed.
+Print Assumptions c02_after_shutdown_calls_inert.
+
+Theorem c02_shutdown_is_final : forall s te s', accept s te = Some s' -> is_shut s = true -> is_shut s' = true.
+Proof. exact is_shut_stable. Qed.
+Print Assumptions c02_shutdown_is_final.
+
+Theorem c02_nonvacuous : exists s, run (init 1 1) demo_trace = Some s /\ In (2, 1, true) (fl_done s) /\ sh_done s <> [] /\
+  dropped s = [12] /\ exported s = [[11]].
+Proof. exact demo_reachable. Qed.
+Print Assumptions c02_nonvacuous.
